@@ -32,7 +32,8 @@ pub struct TreeProp {
 
 pub fn run_case_impl(c: &Case) -> Vec<Out> {
   let mut ctx = Ctx::default();
-  let built: Vec<Result<rspack_sources::BoxSource, String>> = c.trees.iter().map(|t| catch(|| ctx.build(t))).collect();
+  // every second value of a case is built through another history (observers between the replace calls)
+  let built: Vec<Result<rspack_sources::BoxSource, String>> = c.trees.iter().enumerate().map(|(i, t)| { ctx.observed = i % 2 == 1; catch(|| ctx.build(t)) }).collect();
   c.script.iter().map(|(i, op)| match (&built[*i], op) {
     (Ok(s), Op::Eq(j)) => match &built[*j] { Ok(o) => match catch(|| s.as_ref() == o.as_ref()) { Ok(b) => Out::Num(b as u64), Err(m) => Out::Panic(m) }, Err(m) => Out::Panic(format!("build: {m}")) },
     (Ok(_), Op::CustomStream(cl, f)) => match &c.trees[*i] {
